@@ -15,7 +15,7 @@ func Run(cfg hx.Config) (*hx.Meta, error) {
 		ntriples = 300
 	}
 	vr := &ga.ValueRun{
-		Prop: "C03", Calls: []ga.Call{ga.CallCmp, ga.CallCmpC, ga.CallEq}, SupObs: "sup-cmp", PoolQuick: 12, PoolThorough: 20,
+		Prop: "C03", Calls: []ga.Call{ga.CallCmp, ga.CallCmpC, ga.CallEq}, SupObs: "sup-cmp", PoolQuick: 12, PoolThorough: 20, WithMethods: true,
 		Cases: func(idx int, t *ga.Type, vals []*ga.Val, r *hx.Rand, out *strings.Builder) {
 			for xi, x := range vals {
 				for yi, y := range vals {
